@@ -167,23 +167,25 @@ inductive Err where
 
 /-- `InterpretTimingMetadata.block_start_end`; `lbe` is `self.__last_block_end`.  Returns
 `(block_start, block_end)`; the new `__last_block_end` is `block_end`. -/
-def blockStartEnd {G : Type} (lbe : Option (Ext Rat)) (m : MetaBlock G) : Except Err (Rat × Ext Rat) := do
+def blockStartEnd {G : Type} (lbe : Option (Ext Rat)) (m : MetaBlock G) : Except Err (Rat × Ext Rat) :=
   let object_start : Rat := m.object_start.getD 0
   let object_end : Ext Rat := match m.object_duration with
     | some d => .fin (object_start + d)
     | none => .inf
-  let (block_start, block_end) ← match m.rtime, m.duration with
+  let r : Except Err (Rat × Ext Rat) :=
+    match m.rtime, m.duration with
     | some rtime, some duration =>
-      let block_start := object_start + rtime
-      let block_end := block_start + duration
-      if object_end.ltFin block_end then throw Err.endsAfterObject
-      pure (block_start, Ext.fin block_end)
-    | none, none => pure (object_start, object_end)
-    | _, _ => throw Err.rtimeDurationMix
-  match lbe with
-  | some l => if l.gtFin block_start then throw Err.overlapping
-  | none => pure ()
-  pure (block_start, block_end)
+      -- block_start = object_start + rtime; block_end = block_start + duration
+      if object_end.ltFin (object_start + rtime + duration) then .error Err.endsAfterObject
+      else .ok (object_start + rtime, Ext.fin (object_start + rtime + duration))
+    | none, none => .ok (object_start, object_end)
+    | _, _ => .error Err.rtimeDurationMix
+  match r with
+  | .error e => .error e
+  | .ok (block_start, block_end) =>
+    match lbe with
+    | some l => if l.gtFin block_start then .error Err.overlapping else .ok (block_start, block_end)
+    | none => .ok (block_start, block_end)
 
 /-- State of an interpreter: `__last_block_end` of the base class; `last_block_end` and
 `last_block_gains` of `InterpretObjectMetadata` (unused by the other two). -/
@@ -202,40 +204,53 @@ def interpLength {G : Type} (m : MetaBlock G) (duration : Ext Rat) : Ext Rat :=
 
 /-- `InterpretObjectMetadata.__call__` run to exhaustion: new state and the yielded blocks. -/
 def interpObject {V : Type} (sr : Nat) (st : IState V) (m : MetaBlock V) :
-    Except Err (IState V × List (PBlock (GainKern V))) := do
-  let (start_time, end_time) ← blockStartEnd st.tlast m
-  let interp_time := interpLength m (end_time.subFin start_time)
-  let target_time := Ext.addFin start_time interp_time
-  if target_time.gt end_time then throw Err.interpTooLong
-  -- if self.last_block_end is not None and start_time == self.last_block_end
-  let (target_time, interp_from) :=
-    if st.last_block_end = some (.fin start_time) then (target_time, st.last_block_gains)
-    else (Ext.fin start_time, none)
-  let interp_to := m.gains
-  let start_sample : Rat := start_time * sr
-  let end_sample := end_time.mulNat sr
-  let target_sample := target_time.mulNat sr
-  let y1 ← if Ext.fin start_sample ≠ target_sample then
-      match target_sample with
-      | .inf => throw Err.assertInf
-      | .fin t => pure [mkInterp start_sample t interp_from interp_to]
-    else pure []
-  let y2 ← if target_sample ≠ end_sample then
-      match target_sample with
-      | .inf => throw Err.assertInf
-      | .fin t => pure [mkFixed t end_sample interp_to]
-    else pure []
-  pure ({ tlast := some end_time, last_block_end := some end_time, last_block_gains := some interp_to },
-        y1 ++ y2)
+    Except Err (IState V × List (PBlock (GainKern V))) :=
+  match blockStartEnd st.tlast m with
+  | .error e => .error e
+  | .ok (start_time, end_time) =>
+    let interp_time := interpLength m (end_time.subFin start_time)
+    let target_time := Ext.addFin start_time interp_time
+    if target_time.gt end_time then .error Err.interpTooLong
+    else
+      -- if self.last_block_end is not None and start_time == self.last_block_end
+      let ti : Ext Rat × Option V :=
+        if st.last_block_end = some (.fin start_time) then (target_time, st.last_block_gains)
+        else (Ext.fin start_time, none)
+      let interp_to := m.gains
+      let start_sample : Rat := start_time * sr
+      let end_sample := end_time.mulNat sr
+      let target_sample := ti.1.mulNat sr
+      let y1 : Except Err (List (PBlock (GainKern V))) :=
+        if Ext.fin start_sample ≠ target_sample then
+          match target_sample with
+          | .inf => .error Err.assertInf
+          | .fin t => .ok [mkInterp start_sample t ti.2 interp_to]
+        else .ok []
+      let y2 : Except Err (List (PBlock (GainKern V))) :=
+        if target_sample ≠ end_sample then
+          match target_sample with
+          | .inf => .error Err.assertInf
+          | .fin t => .ok [mkFixed t end_sample interp_to]
+        else .ok []
+      match y1 with
+      | .error e => .error e
+      | .ok a =>
+        match y2 with
+        | .error e => .error e
+        | .ok b =>
+          .ok ({ tlast := some end_time, last_block_end := some end_time, last_block_gains := some interp_to },
+               a ++ b)
 
 /-- `InterpretDirectSpeakersMetadata.__call__` / `InterpretHOAMetadata.__call__` (payload `G` =
 gain row resp. decode matrix): one block `[sr*start, sr*end)`. -/
 def interpFixed {G : Type} (sr : Nat) (st : IState G) (m : MetaBlock G) :
-    Except Err (IState G × List (PBlock G)) := do
-  let (start_time, end_time) ← blockStartEnd st.tlast m
-  let start_sample : Rat := sr * start_time
-  let end_sample := end_time.mulNat sr
-  pure ({ st with tlast := some end_time }, [PBlock.new start_sample end_sample m.gains])
+    Except Err (IState G × List (PBlock G)) :=
+  match blockStartEnd st.tlast m with
+  | .error e => .error e
+  | .ok (start_time, end_time) =>
+    let start_sample : Rat := sr * start_time
+    let end_sample := end_time.mulNat sr
+    .ok ({ st with tlast := some end_time }, [PBlock.new start_sample end_sample m.gains])
 
 /-! ### `BlockProcessingChannel` -/
 
